@@ -452,6 +452,18 @@ pub fn basic_hbf_shapes(cfg: &LinkCfg) -> Vec<(&'static str, HbfShape)> {
             "long-hbf",
             HbfShape { pages: (0..6).map(|i| page(vec![Ev::Data { words: d(1 + i % 3, 20 + i as u64), cdw: false, done: true }])).collect() },
         ),
+        (
+            // a page that ends with a no-data TDH (no TDT follows) and is followed by further pages: the next page's
+            // IHW is read in the state "after a TDH with no_data"
+            "pages-ending-with-nodata",
+            HbfShape {
+                pages: vec![
+                    page(vec![Ev::Data { words: d(2, 30), cdw: false, done: true }, Ev::NoData]),
+                    page(vec![Ev::NoData]),
+                    page(vec![Ev::Data { words: d(1, 31), cdw: false, done: true }]),
+                ],
+            },
+        ),
     ]
 }
 
@@ -509,7 +521,17 @@ pub fn stave_hbf_shapes(cfg: &LinkCfg) -> Vec<(&'static str, HbfShape)> {
             HbfShape {
                 pages: vec![
                     page(vec![Ev::Data { words: f1.clone(), cdw: false, done: true }]),
-                    page(vec![Ev::Data { words: f2, cdw: false, done: true }, Ev::Data { words: f3, cdw: false, done: true }]),
+                    page(vec![Ev::Data { words: f2.clone(), cdw: false, done: true }, Ev::Data { words: f3.clone(), cdw: false, done: true }]),
+                ],
+            },
+        ),
+        (
+            "pages-ending-with-nodata",
+            HbfShape {
+                pages: vec![
+                    page(vec![Ev::Data { words: f1.clone(), cdw: false, done: true }, Ev::NoData]),
+                    page(vec![Ev::NoData]),
+                    page(vec![Ev::Data { words: f3.clone(), cdw: false, done: true }]),
                 ],
             },
         ),
